@@ -634,7 +634,6 @@ def expected_visible(value, kw):
   """Keys and leaves the options ask to show: [(what, role-ish, text)]. The same notion as Proofs/Html: visible."""
   es, fs = kw.get('enable_summary'), kw.get('enable_summary_for_str', True)
   maxlen = kw.get('max_summary_len_for_str', 80)
-  label_all = kw.get('key_style', 'summary') == 'label'
   out = []
   def has_summary_with_name(v):
     if es is not None: return es
@@ -650,21 +649,27 @@ def expected_visible(value, kw):
         out.append(('leaf', utils.format(v, compact=False, verbose=False, hide_default_values=True, python_format=True, use_inferred=True, max_bytes_len=64)))
       return
     keys = [k for k, _ in items]
-    if depth == 0:
-      inc, exc = kw.get('include_keys'), kw.get('exclude_keys')
-      if callable(inc) or callable(exc) or callable(kw.get('key_style')) or kw.get('extra_flags') or kw.get('child_config'):
-        return None
-      if inc is not None: keys = [k for k in inc if k in dict(items)]
-      if exc is not None: keys = [k for k in keys if k not in set(exc)]
     d = dict(items)
+    inc, exc, ks = kw.get('include_keys'), kw.get('exclude_keys'), kw.get('key_style', 'summary')
+    if kw.get('child_config'):
+      return None
+    kp = lambda k: utils_.KeyPath(root + path + [k])
+    if callable(inc): keys = [k for k in keys if inc(kp(k), d[k], v)]          # a callable filter is asked at every level
+    elif depth == 0 and inc is not None: keys = [k for k in inc if k in d]
+    if callable(exc): keys = [k for k in keys if not exc(kp(k), d[k], v)]
+    elif depth == 0 and exc is not None: keys = [k for k in keys if k not in set(exc)]
     for k in keys:
       c = d[k]
-      if isinstance(v, (tuple, list)) or label_all:
+      style = 'label' if isinstance(v, (tuple, list)) else (ks(kp(k), c, v) if callable(ks) else ks)
+      if style == 'label':
         out.append(('key', str(k)))
       elif has_summary_with_name(c):
         out.append(('key', '[%d]' % k if isinstance(k, int) else k))
       go(c, depth + 1, path + [k])
-  go(value, 0, [])
+  from pyglove.core import utils as utils_
+  root = list(kw['root_path'].keys) if 'root_path' in kw else []
+  with view_flags(kw.get('extra_flags')):
+    go(value, 0, [])
   return out
 
 def oracle(value, kw, data, twin=None, presence=True):
